@@ -9,8 +9,8 @@ import (
 
 	"github.com/notaryproject/notation-core-go/revocation"
 	revresult "github.com/notaryproject/notation-core-go/revocation/result"
-	pluginfw "github.com/notaryproject/notation-plugin-framework-go/plugin"
 	"github.com/notaryproject/notation-go/verifier/truststore"
+	pluginfw "github.com/notaryproject/notation-plugin-framework-go/plugin"
 )
 
 // StoreCall is one GetCertificates call seen by MemStore.
